@@ -99,6 +99,8 @@ def replay(build, model_text, model_holes, expect_native):
     try:
         blocks = Splitter(text).split().blocks
     except Exception as e:  # noqa
+        from pysym.harness import guard_repo_exception
+        guard_repo_exception(e)
         return {"input": text, "observed": f"raised {type(e).__name__}: {e}", "expected": expect_native}
     got = []
     for b in blocks:
